@@ -6,6 +6,8 @@
 package main
 
 import (
+	"io"
+	"log/slog"
 	"crypto/sha256"
 	"encoding/json"
 	"fmt"
@@ -33,6 +35,7 @@ func verifDir() string {
 }
 
 func main() {
+	slog.SetDefault(slog.New(slog.NewTextHandler(io.Discard, nil)))
 	if len(os.Args) < 2 {
 		usage()
 	}
